@@ -81,6 +81,7 @@ func c14Scenarios(era drive.Era, thorough bool) []c14Scenario {
 	out = append(out, c14Scenario{name: "tie-above-cap", holders: []c14Holder{{key: 20, xbt: 1000000, move: "none"}, {key: 21, xbt: 1000000, move: "none"}, {key: 22, xbt: 1000000, move: "none"}}, snapRates: R1().With("XBT", 9e7*1e8), graded576: true})
 	if era.V202 == 0 {
 		out = append(out, c14Scenario{name: "asset-zeroed-by-band", holders: append([]c14Holder{{key: 20, usd: 10, eur: 5, move: "none"}}, fixed...), graded576: true, zeroEUR: true})
+		out = append(out, c14Scenario{name: "conversion-executing-in-the-snapshot-block", holders: append([]c14Holder{{key: 20, usd: 1000, eur: 5, move: "convert-in-snapshot-block"}}, fixed...), graded576: true})
 		for _, mv := range []string{"none", "late", "sendpart"} {
 			out = append(out, c14Scenario{name: "pusd-unpriced-at-first-snapshot/" + mv, holders: append([]c14Holder{{key: 20, usd: 1000, eur: 5, move: mv}}, fixed...), graded576: true, zeroUSD432: true})
 		}
@@ -200,7 +201,17 @@ func c14One(c *core.Ctx, r *core.Result, era drive.Era, sc c14Scenario, key stri
 		b.AddEmpty(1)
 	}
 	for b.Next() < 576 {
-		b.Add(g(drive.BlockSpec{})) // 572..575 graded: the averaging window is full
+		s := drive.BlockSpec{} // 572..575 graded: the averaging window is full
+		if b.Next() == 575 {
+			// a conversion entered in the last block before the snapshot executes IN the snapshot block: the snapshot holds the
+			// balances of the end of block 575, before it
+			for _, h := range sc.holders {
+				if h.move == "convert-in-snapshot-block" && h.usd > 0 {
+					s.TX = append(s.TX, b.Tx(h.key, kit.Conversion(kit.Addr(h.key), "pUSD", (h.usd/2)*1e8+1e8, "pEUR")))
+				}
+			}
+		}
+		b.Add(g(s))
 	}
 	// 576: snapshot 2 + payouts; a transfer inside the block must not count
 	s576 := drive.BlockSpec{TX: []fake.Entry{b.Tx(KA, kit.Transfer(A, "pUSD", 100e8, kit.Addr(sc.holders[0].key)))}}
